@@ -72,7 +72,7 @@ type c39run struct {
 	strat    simrt.Strategy
 	tasks    []taskPlan
 	net      netPlan
-	eps      [2]*endpoint
+	eps      []*endpoint // A, B; with a second client also C (client) and D (its server side)
 	sim      *simrt.Sim
 	ev       int64
 	calls    []*callRec
@@ -94,6 +94,8 @@ type c39run struct {
 	raw       bool // endpoint B is a scripted raw peer instead of a real connection
 	rawScript []int
 	rawp      *rawPeer
+	second    int // >0: a second client dials the same server and makes that many calls
+	accepted  int
 }
 
 type msgRec struct {
@@ -262,12 +264,16 @@ func (c39) NewRun(plan *simrt.Source, job *harn.Job) harn.Run {
 			r.tasks = append(r.tasks, tp)
 		}
 	}
+	if plan.Chance(250) {
+		r.second = 1 + plan.Draw(3)
+	}
 	// raw-peer configuration: only A is a real connection
 	r.raw = plan.Chance(200)
 	if v, ok := job.Knobs["raw"]; ok {
 		r.raw = v == 1
 	}
 	if r.raw {
+		r.second = 0
 		var keep []taskPlan
 		for _, t := range r.tasks {
 			if t.Ep == 0 {
@@ -281,6 +287,9 @@ func (c39) NewRun(plan *simrt.Source, job *harn.Job) harn.Run {
 			r.rawScript = append(r.rawScript, plan.Draw(6))
 		}
 		r.net.Desc = fmt.Sprintf("RAW PEER script=%v cap=%d A=%+v", r.rawScript, r.net.Cap, r.net.A)
+	}
+	if r.second > 0 {
+		r.net.Desc += fmt.Sprintf(" + second client making %d calls on its own connection to the same server", r.second)
 	}
 	r.work = append(r.work, r.net.Desc)
 	h := uint64(14695981039346656037)
@@ -337,7 +346,8 @@ func (r *c39run) Extra() map[string]int    { return r.extra }
 
 type listener struct {
 	r       *c39run
-	pending *simnet.End
+	pending []*simnet.End
+	next    int // index of the endpoint pair used by the next Dial (0: A/B, 2: C/D)
 	closed  bool
 	w       simrt.WaitList
 }
@@ -346,9 +356,9 @@ func (l *listener) Accept(ctx context.Context) (io.ReadWriteCloser, error) {
 	s := simrt.Active()
 	simrt.Yield("listener.Accept")
 	for {
-		if l.pending != nil {
-			e := l.pending
-			l.pending = nil
+		if len(l.pending) > 0 {
+			e := l.pending[0]
+			l.pending = l.pending[1:]
 			return e, nil
 		}
 		if l.closed {
@@ -369,10 +379,13 @@ func (l *listener) Dialer() jsonrpc2.Dialer { return l }
 
 func (l *listener) Dial(ctx context.Context) (io.ReadWriteCloser, error) {
 	simrt.Yield("listener.Dial")
-	a, b := simnet.Pipe("A", "B", l.r.net.Cap)
-	a.F, b.F = l.r.net.A, l.r.net.B
-	l.r.eps[0].end, l.r.eps[1].end = a, b
-	l.pending = b
+	i := l.next
+	a, b := simnet.Pipe(l.r.eps[i].name, l.r.eps[i+1].name, l.r.net.Cap)
+	if i == 0 {
+		a.F, b.F = l.r.net.A, l.r.net.B
+	}
+	l.r.eps[i].end, l.r.eps[i+1].end = a, b
+	l.pending = append(l.pending, b)
 	l.w.WakeAll(simrt.Active())
 	return a, nil
 }
@@ -679,14 +692,17 @@ func (r *c39run) closeReturned(ep *endpoint, what string) {
 func (r *c39run) Body(s *simrt.Sim) {
 	r.sim = s
 	r.release = make(chan struct{})
-	r.eps[0] = &endpoint{r: r, idx: 0, name: "A", asyncOpen: map[string]bool{}}
-	r.eps[1] = &endpoint{r: r, idx: 1, name: "B", asyncOpen: map[string]bool{}}
+	for i, n := range []string{"A", "B", "C", "D"} {
+		if i < 2 || r.second > 0 {
+			r.eps = append(r.eps, &endpoint{r: r, idx: i, name: n, asyncOpen: map[string]bool{}})
+		}
+	}
 	if r.raw {
 		r.srvWaited = true
 		r.startRaw()
 	} else {
 		r.lis = &listener{r: r}
-		r.server = jsonrpc2.NewServer(context.Background(), r.lis, r.eps[1])
+		r.server = jsonrpc2.NewServer(context.Background(), r.lis, serverBinder{r})
 		if _, err := jsonrpc2Dial(r.lis.Dialer(), r.eps[0]); err != nil {
 			r.fail("harness", "Dial failed: "+err.Error(), "Dial")
 			return
@@ -697,6 +713,10 @@ func (r *c39run) Body(s *simrt.Sim) {
 		}
 	}
 	r.tasksAll = len(r.tasks)
+	if r.second > 0 {
+		r.tasksAll++
+		simrt.Go("C.task", r.secondClient)
+	}
 	for i, t := range r.tasks {
 		i, t := i, t
 		ep := r.eps[t.Ep]
@@ -723,6 +743,36 @@ func (r *c39run) Body(s *simrt.Sim) {
 			r.tasksDone++
 		})
 	}
+}
+
+// serverBinder gives every accepted connection its own endpoint record.
+type serverBinder struct{ r *c39run }
+
+func (b serverBinder) Bind(ctx context.Context, c *jsonrpc2.Connection) jsonrpc2.ConnectionOptions {
+	ep := b.r.eps[1+2*b.r.accepted]
+	b.r.accepted++
+	return ep.Bind(ctx, c)
+}
+
+// secondClient dials the same server later, makes a few calls and closes.
+func (r *c39run) secondClient() {
+	for k := 0; k < 3+r.second*4; k++ {
+		simrt.Yield("second-client-delay")
+	}
+	c := r.eps[2]
+	r.lis.next = 2
+	if _, err := jsonrpc2Dial(r.lis.Dialer(), c); err != nil {
+		r.fail("harness", "second Dial failed: "+err.Error(), "Dial")
+		return
+	}
+	r.sim.Probe("second-connection")
+	for k := 0; k < r.second; k++ {
+		r.doCall(c, "C.task", opPlan{Kind: "call", Method: []string{"echo", "peek", "async"}[k%3], Awaiters: 1})
+	}
+	if r.second%2 == 1 {
+		r.doClose(c)
+	}
+	r.tasksDone++
 }
 
 func jsonrpc2Dial(d jsonrpc2.Dialer, b jsonrpc2.Binder) (*jsonrpc2.Connection, error) {
@@ -805,7 +855,7 @@ func (r *c39run) OnQuiesce(s *simrt.Sim, _ int) bool {
 		r.settle = true
 		simrt.Go("settle", func() {
 			for _, ep := range r.eps {
-				if ep.end != nil {
+				if ep != nil && ep.end != nil {
 					ep.end.Heal()
 				}
 			}
@@ -830,11 +880,33 @@ func (r *c39run) OnQuiesce(s *simrt.Sim, _ int) bool {
 			simrt.Go("server-wait", func() {
 				r.server.Wait()
 				r.srvWaited = true
+				// the server is done only when every connection it accepted is done
+				for _, ep := range r.eps {
+					if ep.idx%2 == 1 && ep.conn != nil && !connDone(ep.conn) {
+						r.fail("oracle:server-wait-early", "Server.Wait returned while the accepted connection "+ep.name+" is still open", "Server.Wait returned before an accepted connection finished")
+					}
+				}
 			})
 		})
 		return true
 	}
 	return false
+}
+
+// connDone reports whether an accepted connection has finished: its stream
+// has been closed (closer == nil) and its reader has exited. (The done channel
+// itself is closed a moment after onDone runs, so Server.Wait may legitimately
+// return just before that.) All goroutines are parked when this runs.
+func connDone(c *jsonrpc2.Connection) bool {
+	st := reflect.ValueOf(c).Elem().FieldByName("state")
+	if !st.IsValid() {
+		return true // fields renamed: this measure degrades, the other oracles remain
+	}
+	closer, reading := st.FieldByName("closer"), st.FieldByName("reading")
+	if !closer.IsValid() || !reading.IsValid() || reading.Kind() != reflect.Bool {
+		return true
+	}
+	return closer.IsNil() && !reading.Bool()
 }
 
 func (r *c39run) Nontrivial(res *simrt.Result) bool {
